@@ -139,8 +139,7 @@ def run_spec(spec, props=("C07", "C08")):
             mf_family = [model + "_heterogeneous_meanfield_from_graph", model + "_individual_based", model + "_homogeneous_meanfield_from_graph"]
             for fam, famname in ((pair_family, "pairwise"), (mf_family, "meanfield")):
                 for rho in spec["rhos"]:
-                    for (tau, gamma) in spec["rates"]:
-                        grid = tuple(spec["grid"])
+                    for (tau, gamma), grid in [(r_, tuple(g_)) for r_ in spec["rates"] for g_ in spec["grids"]]:
                         A.evals += 1
                         tag = "%s-regular graph %s (n=%d), %s %s family, rho=%g, tau=%g, gamma=%g" % (spec["degree"], spec["name"], spec["n"], model, famname, rho, tau, gamma)
                         outs = {}
@@ -153,7 +152,7 @@ def run_spec(spec, props=("C07", "C08")):
                             continue
                         ref = outs[fam[-1]] if fam[-1] in outs else list(outs.values())[0]
                         k = 4 if model == "SIR" else 3
-                        A.states.add((spec["name"], model, famname, rho, tau, gamma)); A.nontrivial.add((spec["name"], model, famname, rho, tau, gamma))
+                        A.states.add((spec["name"], model, famname, rho, tau, gamma, grid)); A.nontrivial.add((spec["name"], model, famname, rho, tau, gamma, grid))
                         for name, o in outs.items():
                             d = maxdev(o[1:k], ref[1:k]) / N
                             if not np.isfinite(d):
@@ -174,7 +173,7 @@ def specs_c07(tier):
     thorough = tier != "quick"
     rates = [(0.3, 0.7), (1.1, 1.0), (0.3, 0.0)] if not thorough else [(0.3, 0.7), (1.1, 1.0), (0.3, 0.0), (1.1, 0.7), (0.0, 0.7)]
     rhos = [0.05, 0.2, 0.5]
-    grids = [[0, 3, 7]] + ([[0, 10, 11]] if thorough else [])
+    grids = [[0, 3, 7], [1.5, 3.5, 5]] + ([[0, 10, 11], [-2, 1, 4]] if thorough else [])
     # degree histograms kmax<=4, counts<=3 (quick: counts<=2, kmax<=3 + a selection)
     cm = 3 if thorough else 2
     km = 4 if thorough else 3
@@ -183,7 +182,7 @@ def specs_c07(tier):
             continue
         if not thorough and sum(1 for x in Nk if x) > 3:
             continue
-        out.append(dict(kind="hier_hist", Nk=list(Nk), rhos=rhos if thorough else rhos[1:2] + rhos[:1], rates=rates[:2] if not thorough else rates, grids=grids[:1]))
+        out.append(dict(kind="hier_hist", Nk=list(Nk), rhos=rhos if thorough else rhos[1:2] + rhos[:1], rates=rates[:2] if not thorough else rates, grids=grids[:2]))
     gs = [(4, es) for es in gr.shapes(4) if es] + [(5, es) for es in gr.shapes(5) if es]
     for n, es in gs:
         G = gr.mk(n, es)
@@ -192,5 +191,5 @@ def specs_c07(tier):
         if n > 8 and not thorough:
             continue
         deg = 2 * len(es) // n
-        out.append(dict(kind="regular", name=name, n=n, edges=es, degree=deg, rhos=rhos if thorough else rhos[:2], rates=rates[:2] if not thorough else rates[:3], grid=[0, 3, 7]))
+        out.append(dict(kind="regular", name=name, n=n, edges=es, degree=deg, rhos=rhos if thorough else rhos[:2], rates=rates[:2] if not thorough else rates[:3], grids=[[0, 3, 7], [1.5, 3.5, 5]] + ([[-2, 1, 4]] if thorough else [])))
     return out
